@@ -307,7 +307,7 @@ def run_cli(desc, ctx, res):
                         {'file': desc['name'], 'mode': desc['mode'], 'index': i, 'got': p.stdout[:1500]})
 
 
-SUBCOMMANDS = ['align', 'map', 'distance', 'weed', 'delete', 'merge', 'merge3', 'lo', 'nk', 'nk-short']
+SUBCOMMANDS = ['align', 'map', 'distance', 'weed', 'weed-nofile', 'weed-mask', 'delete', 'merge', 'merge3', 'lo', 'nk', 'nk-short']
 
 
 def sub_run(ctx, cmd, skf, aux, tag):
@@ -341,6 +341,14 @@ def sub_run(ctx, cmd, skf, aux, tag):
     if cmd == 'weed':
         out = ctx.path('w_%s.skf' % tag)
         p = ctx.sh(b, 'weed', skf, aux['weed'], '--min-freq', '0', '-o', out, mem_gb=MEM_GB)
+        if p.returncode != 0:
+            return p.returncode, None
+        q = ctx.sh(b, 'nk', '--full-info', out)
+        return q.returncode, content_of(q.stdout)
+    if cmd in ('weed-nofile', 'weed-mask'):
+        # weed without a weed file: nothing to remove (and nothing to filter), or only a mask to apply
+        out = ctx.path('wn_%s.skf' % tag)
+        p = ctx.sh(b, 'weed', skf, '--min-freq', '0', *(['--ambig-mask'] if cmd == 'weed-mask' else []), '-o', out, mem_gb=MEM_GB)
         if p.returncode != 0:
             return p.returncode, None
         q = ctx.sh(b, 'nk', '--full-info', out)
@@ -420,9 +428,16 @@ def run_sub(desc, ctx, res):
         if it < 2 and it < len(clean_cuts):
             mode, i = 'trunc', clean_cuts[it]
             res.count('cuts_at_chunk_boundaries')
-        ctx.write('d.skf', damaged(data, mode, i))
+        # the damaged copy under a name ending in .skf, or (a third) under a bare name next to a VALID, different file called
+        # <name>.skf (what `weed -o run` followed by `delete -s run` leaves around)
+        dname = 'd.skf'
+        if it % 3 == 2:
+            dname = 'run%d' % it
+            shutil.copy(aux['other'], ctx.path(dname + '.skf'))
+            res.count('damaged_copy_next_to_a_valid_sibling')
+        ctx.write(dname, damaged(data, mode, i))
         for c in cmds:
-            rcode, result = sub_run(ctx, c, ctx.path('d.skf'), aux, 'dmg')
+            rcode, result = sub_run(ctx, c, ctx.path(dname), aux, 'dmg')
             res.evals += 1
             res.count('subcommand_samples')
             res.count('sub:' + c)
